@@ -2,11 +2,16 @@
 C18 — Time and integer quantities: exact integer arithmetic, faithful float conversion.
 Tier S.  Integer operators are modelled in a debug build (overflow / division by zero panic): the theorems say
 the result is the exact mathematical integer whenever it is representable, and that nothing else is ever returned.
-The conversion *accuracy* clauses (two ulps, monotone, round-trip bound) are about binary32 rounding and are NOT
-proved here (see `partial` in the evidence); what is proved is which expression is computed.
+The conversion *accuracy* clauses (two ulps, monotone, round-trip bound) are about binary32 rounding. They are proved
+(a) for an abstract rounding function under the IEEE contract (`Lemmas/C18Rounding.lean`) and (b) with NO rounding
+hypothesis for the concrete, kernel-transparent round-to-nearest-even function `Rrtk.Soft.rne32` (`Lemmas/SoftFloat.lean`,
+`Lemmas/C18Soft.lean`: `*_binary32` theorems, including that no intermediate result overflows, so `rne32` is the hardware
+result at every step).  What remains trusted is that the CPU's binary32 `+ - * /`, `as f32`, `as i64` coincide with `rne32`
+— compared bit-for-bit on every run (group `sf`).
 -/
 import Rrtk.Core
 import Rrtk.Thm.Lemmas.C18Rounding
+import Rrtk.Thm.Lemmas.C18Soft
 set_option linter.unusedSectionVars false
 namespace Rrtk.Thm.C18
 open Rrtk
